@@ -40,14 +40,26 @@ def words_of(tokens):
 def columns(words):
     cols, c = [], 0
     for w in words:
-        cols.append((c, c + len(w)))
+        cols.append(((0, c), (0, c + len(w))))
         c += len(w) + 1
     return cols
 
 
+def lay_out(words, layout):
+    """source text that puts word i at (line, column) layout[i] (lines ascending), and the spans"""
+    lines, cols = {}, []
+    for w, (l, c) in zip(words, layout):
+        cur = lines.get(l, "")
+        if len(cur) > c:
+            return None, None
+        lines[l] = cur + " " * (c - len(cur)) + w
+        cols.append(((l, c), (l, c + len(w))))
+    return "\n".join(lines.get(l, "") for l in range(max(lines) + 1)), cols
+
+
 # ----------------------------------------------------------------------------- native tree -> reference vocabulary
 def span(n):
-    return (n["loc"]["start"][1], n["loc"]["end"][1]) if n["loc"]["start"][0] == 0 and n["loc"]["end"][0] == 0 else (tuple(n["loc"]["start"]), tuple(n["loc"]["end"]))
+    return (tuple(n["loc"]["start"]), tuple(n["loc"]["end"]))
 
 
 def walk(node, level, names, lits):
@@ -282,10 +294,16 @@ def replay_grammar(run, exe, failures):
         if not words:
             continue
         src = " ".join(words)
+        cols = columns(words)
+        if sc.get("layout"):
+            # identifiers and literals may be wider than the template's two columns: spread the layout
+            wide = max(len(w) for w in words) + 1
+            src2, cols2 = lay_out(words, [(l, c * wide) for l, c in sc["layout"]])
+            if src2 is not None:
+                src, cols = src2, cols2
         if src in seen:
             continue
         seen.add(src)
-        cols = columns(words)
         # reference parse (identifiers are their own names here)
         rtoks = [(k, (p[0] if p else None)) for k, *p in tokens]
         p = RefParser(rtoks)
@@ -299,7 +317,7 @@ def replay_grammar(run, exe, failures):
         idents = sorted({t[1] for t in tokens if t[0] == "Ident"})
         rec = {"label": f["label"], "source": src}
         tried.append(rec)
-        bad = check_one(run, exe, src, tokens, rtoks, cols, want, idents, rec)
+        bad = check_one(run, exe, src, tokens, rtoks, cols, want, idents, rec, words)
         if bad:
             rec["reproduced"] = True
             return {"status": "reproduced", "summary": f"`{src}`: {bad}", "attempts": tried}
@@ -329,7 +347,7 @@ def to_params(env):
     return {n: (v[1] if v[0] == "int" else bool(v[1])) for n, v in env.items()}
 
 
-def check_one(run, exe, src, tokens, rtoks, cols, want, idents, rec):
+def check_one(run, exe, src, tokens, rtoks, cols, want, idents, rec, words):
     envs = bindings_for(idents)
     reqs = [{"source": src, "params": to_params(e)} for e in envs]
     out, why = run(exe, "parse", reqs)
@@ -382,7 +400,7 @@ def check_one(run, exe, src, tokens, rtoks, cols, want, idents, rec):
         full = render(want, rtoks, names, True)
     except Unknown:
         full = None
-    if full and full != src:
+    if full and full != " ".join(words):
         out2, why = run(exe, "parse", [{"source": full, "params": to_params(e)} for e in envs])
         if out2 is not None:
             for env, a, b in zip(envs, out, out2):
@@ -395,13 +413,13 @@ def check_one(run, exe, src, tokens, rtoks, cols, want, idents, rec):
     forms = []
     if lit_idx:
         # literals become variables bound to the same value
-        ws, extra = src.split(" "), {}
+        ws, extra = list(words), {}
         for j, i in enumerate(lit_idx):
             nm = f"lit_{j}"
             ws[i] = nm
             extra[nm] = ("int", tokens[i][1])
         forms.append((" ".join(ws), extra, None))
-    ws = src.split(" ")
+    ws = list(words)
     for env in envs[:4]:
         if idents and all(n in env and env[n][0] == "int" and env[n][1] >= 0 for n in idents):
             prim_pos = [i for i, t in enumerate(tokens) if t[0] == "Ident" and not (i > 0 and tokens[i - 1][0] == "Dot") and not (i + 1 < len(tokens) and tokens[i + 1][0] == "LParen")]
